@@ -17,6 +17,7 @@ import (
 	"github.com/inbucket/inbucket/v3/pkg/rest/model"
 	"github.com/inbucket/inbucket/v3/pkg/server/web"
 	"github.com/inbucket/inbucket/v3/pkg/storage"
+	"github.com/inbucket/inbucket/v3/pkg/storage/file"
 	"github.com/inbucket/inbucket/v3/pkg/storage/mem"
 	"github.com/inbucket/inbucket/v3/pkg/webui"
 	vrf "github.com/inbucket/inbucket/v3/pkg/zzvrf"
@@ -73,10 +74,17 @@ func listOf(w *vrf.RecWriter) []*model.JSONMessageHeaderV1 {
 // real StoreManager. The response must report exactly what the store holds: 404 exactly for a
 // message that does not exist, 200 with the store's data otherwise, mutations do exactly what the
 // route says, no handler panics, and the mailbox is found under every alias of its name (C04).
-func VerifC14Handlers(m int, h int) {
+func VerifC14Handlers(m int, h int, backend int) {
 	root := &config.Root{MailboxNaming: config.LocalNaming}
 	ap := &policy.Addressing{Config: root}
-	st, err := mem.New(config.Storage{}, extension.NewHost())
+	var st storage.Store
+	var err error
+	if backend == 1 {
+		// file store (file-system model under the engine, a real temporary directory natively)
+		st, err = file.New(config.Storage{Params: map[string]string{"path": vrf.VfsTempDir()}}, extension.NewHost())
+	} else {
+		st, err = mem.New(config.Storage{}, extension.NewHost())
+	}
 	if err != nil {
 		return
 	}
@@ -90,7 +98,17 @@ func VerifC14Handlers(m int, h int) {
 		ids = append(ids, id)
 	}
 	name := nameMenu[vrf.Fork(vrf.Choose("name", len(nameMenu)))]
-	id := idMenu[vrf.Fork(vrf.Choose("id", len(idMenu)))]
+	idm := idMenu
+	if backend == 1 {
+		// file-store ids are timestamps: the menu holds the ids actually issued
+		idm = []string{"20200101T000000-0001", "20200101T000000-0002", "latest", "9", ""}
+		for i := range ids {
+			if i < 2 {
+				idm[i] = ids[i]
+			}
+		}
+	}
+	id := idm[vrf.Fork(vrf.Choose("id", len(idm)))]
 	vars := map[string]string{"name": name, "id": id, "num": "0"}
 	canon, cerr := ap.ExtractMailbox(name)
 	isBox := cerr == nil && canon == "box"
